@@ -132,6 +132,11 @@ def generic_loader(model, rep):
     construct = "components._Component.from_file"
     src = ast.unparse(fn)
     ok = True
+    cfgs = [x.targets[0].id for x in ast.walk(fn) if isinstance(x, ast.Assign) and isinstance(x.targets[0], ast.Name) and isinstance(x.value, ast.Call)
+            and ast.unparse(x.value.func) in ("toml.load", "toml.loads", "tomllib.load")]
+    if len(cfgs) != 1:
+        raise AnalysisError("generic loader: the parsed file is not bound to one name")
+    CFG = cfgs[0]
     loops = [x for x in fn.body if isinstance(x, ast.For)]
     if len(loops) != 1:
         raise AnalysisError("generic loader: key loop not found")
@@ -139,6 +144,11 @@ def generic_loader(model, rep):
     key = loop.target.id if isinstance(loop.target, ast.Name) else None
     if key is None or "_cparams['params']" not in ast.unparse(loop.iter).replace('"', "'"):
         raise AnalysisError("generic loader does not iterate over the table's keys")
+    # the value variable: the name stored into the parameter dict under the key
+    st_ = [x for x in loop.body if isinstance(x, ast.Assign) and isinstance(x.targets[0], ast.Subscript) and is_loopkey(x.targets[0].slice, key) and isinstance(x.value, ast.Name)]
+    if len(st_) != 1 or not isinstance(st_[0].targets[0].value, ast.Name):
+        raise AnalysisError("generic loader: the store of the fetched value is not recognised")
+    PV, FP = st_[0].value.id, st_[0].targets[0].value.id
     # mandatory / optional fetch
     fetch = [x for x in loop.body if isinstance(x, ast.If)]
     good = False
@@ -147,8 +157,8 @@ def generic_loader(model, rep):
         if t == "cls._cparams['params'][%s]['opt']" % key:
             b = ast.unparse(iff.body[0]).replace('"', "'").replace("\n", "").replace(" ", "")
             o = ast.unparse(iff.orelse[0]).replace('"', "'").replace(" ", "") if iff.orelse else ""
-            if b.startswith("pval=_get_opt(config[cls._cparams['name']],%s,cls._cparams['params'][%s]['def'])" % (key, key)) and \
-                    o == "pval=_get_mand(config[cls._cparams['name']],%s)" % key:
+            if b.startswith("%s=_get_opt(%s[cls._cparams['name']],%s,cls._cparams['params'][%s]['def'])" % (PV, CFG, key, key)) and \
+                    o == "%s=_get_mand(%s[cls._cparams['name']],%s)" % (PV, CFG, key):
                 good = True
     if not good:
         ok = False
@@ -159,25 +169,25 @@ def generic_loader(model, rep):
     for i, s in enumerate(loop.body):
         if isinstance(s, ast.If) and any(isinstance(b, ast.Raise) for b in s.body):
             t = ast.unparse(s.test).replace('"', "'").replace(" ", "")
-            if t in ("type(pval)notincls._cparams['params'][%s]['typ']" % key, "nottype(pval)incls._cparams['params'][%s]['typ']" % key):
+            if t in ("type(%s)notincls._cparams['params'][%s]['typ']" % (PV, key), "nottype(%s)incls._cparams['params'][%s]['typ']" % (PV, key)):
                 if "ValueError" in ast.unparse(s.body[0]):
                     gate = i
             else:
-                rep.violation("R4", construct, "%s:%d" % (rel, s.lineno), "the type gate is `%s`: a value whose exact type is not listed (e.g. a bool for a number) is not rejected" % ast.unparse(s.test), "type gate " + t)
+                rep.violation("R4", construct, "%s:%d" % (rel, s.lineno), "the type gate is `%s`: a value whose exact type is not listed (e.g. a bool for a number) is not rejected" % ast.unparse(s.test), "type gate " + t.replace(PV, "<value>"))
                 ok = False
                 gate = -1
-        if isinstance(s, ast.Assign) and ast.unparse(s.targets[0]) == "fparams[%s]" % key:
+        if s is st_[0]:
             store = i
     if gate is None or store is None or (gate >= 0 and gate > store):
         ok = False
         rep.violation("R4", construct, where, "a value of the wrong type is not rejected with ValueError before it is stored", "type gate order")
     # limits and construction
-    lim = [x for x in ast.walk(fn) if isinstance(x, ast.Assign) and ast.unparse(x.targets[0]).replace('"', "'") == "fparams['limits']"]
-    if not lim or ast.unparse(lim[0].value).replace('"', "'").replace(" ", "") != "_get_opt(config,'limits',LIMITS_DEFAULT)":
+    lim = [x for x in ast.walk(fn) if isinstance(x, ast.Assign) and ast.unparse(x.targets[0]).replace('"', "'") == "%s['limits']" % FP]
+    if not lim or ast.unparse(lim[0].value).replace('"', "'").replace(" ", "") != "_get_opt(%s,'limits',LIMITS_DEFAULT)" % CFG:
         ok = False
         rep.violation("R4", construct, where, "limits are not taken from the file's top-level table with the constructor default", "limits")
     rets = [x for x in ast.walk(fn) if isinstance(x, ast.Return)]
-    if len(rets) != 1 or ast.unparse(rets[0].value).replace(" ", "") != "cls(name,**fparams)":
+    if len(rets) != 1 or ast.unparse(rets[0].value).replace(" ", "") != "cls(name,**%s)" % FP:
         ok = False
         rep.violation("R4", construct, where, "the component is not built as cls(name, **params)", "construction")
     muts, params, consts = arg_mutations(fn, "components", model)
@@ -186,6 +196,10 @@ def generic_loader(model, rep):
             ok = False
             rep.violation("R4", construct, "%s:%d" % (rel, line), "the loader writes into the shared default %s (%s): a later load without limits inherits this file's limits" % (root, desc), "loader mutates " + root)
     rep.instance("R4", construct, where, ok)
+
+
+def is_loopkey(node, key):
+    return isinstance(node, ast.Name) and node.id == key
 
 
 def linreg_loader(model, rep):
@@ -218,7 +232,9 @@ def linreg_loader(model, rep):
             rep.violation("R4", construct, where, "keyword '%s' of LinReg() is not fed from the file" % kw, "kw " + kw)
             continue
         how, sect, key, d = reads[v.id]
-        want_sect = "config" if kw == "limits" else "config['linreg']"
+        cf2 = [x.targets[0].id for x in ast.walk(fn) if isinstance(x, ast.Assign) and isinstance(x.targets[0], ast.Name) and isinstance(x.value, ast.Call) and ast.unparse(x.value.func) in ("toml.load", "toml.loads", "tomllib.load")]
+        cfn = cf2[0] if cf2 else "config"
+        want_sect = cfn if kw == "limits" else "%s['linreg']" % cfn
         if key != kw or sect != want_sect:
             ok = False
             rep.violation("R4", construct, where, "keyword '%s' is read from %s[%r]" % (kw, sect, key), "kw %s <- %s" % (kw, key))
